@@ -39,13 +39,13 @@ prop("C05", [H("H05_merge", common={"param": "maxDocs=1,tieReopen=1,maxOcc=1"}, 
 prop("C06", KERNELS_CODEC[2:] + [H("H06_merge", quick={"wall": "140s", "shards": 16, "param": "maxDocs=1,tieReopen=1,lite=1"}, thorough={"wall": "1500s", "shards": 16, "param": "maxDocs=2,tieReopen=0"})])
 prop("C07", [
     # everything crossed on small lists
-    H("H07_seq", quick={"wall": "140s", "shards": 6, "param": "maxN=2,maxL=2,maxLocs=1,variants=3"}, thorough={"wall": "1500s", "shards": 16, "param": "maxN=4,maxL=3,maxLocs=1,variants=3"}),
+    H("H07_seq", quick={"wall": "140s", "shards": 6, "param": "maxN=2,maxL=1,maxLocs=1,variants=3"}, thorough={"wall": "1500s", "shards": 16, "param": "maxN=4,maxL=3,maxLocs=1,variants=3"}),
     # longer lists (more chunks), no exclusion, all details: every postings set
     H("H07_seq", quick={"wall": "140s", "shards": 6, "param": "fixN=4,maxL=1,maxLocs=0,variants=1,exceptNil=1,allFlags=1"}, thorough={"wall": "1500s", "shards": 16, "param": "fixN=5,maxL=3,maxLocs=0,variants=1,exceptNil=1,allFlags=1"}),
     # longer lists, every exclusion set, every document a hit
     H("H07_seq", quick={"wall": "140s", "shards": 4, "param": "fixN=3,maxL=2,maxLocs=0,variants=1,allHits=1,allFlags=1"}, thorough={"wall": "1500s", "shards": 16, "param": "fixN=5,maxL=3,maxLocs=0,variants=1,allHits=1,allFlags=1"}),
 ])
-prop("C08", [H("H08_dict", quick={"wall": "140s", "shards": 16, "param": "provs=5,lite=1"}, thorough={"wall": "1500s", "shards": 16, "param": "provs=5"})])
+prop("C08", [H("H08_dict", quick={"wall": "175s", "shards": 16, "param": "provs=5,lite=1"}, thorough={"wall": "1500s", "shards": 16, "param": "provs=5"})])
 prop("C12", [H("H12_syn", common={"param": "maxSyn=2"}, quick={"wall": "140s", "shards": 16})])
 prop("C13", [H("H13_synmerge", quick={"wall": "140s", "shards": 16, "param": "maxSyn=1,emptyTerm=1,drop1=0,reopen=0"}, thorough={"wall": "1500s", "shards": 16, "param": "maxSyn=2,emptyTerm=1,twoGen=1"})])
 prop("C11", [H("H11_pool", quick={"wall": "100s", "shards": 8}), H("H11_effects", quick={"wall": "100s", "shards": 8})])
@@ -59,7 +59,7 @@ prop("C09", [H("K1_chunksize"), H("K1_chunktable"), H("K7_footer"),
              H("H09_layout", quick={"wall": "140s", "shards": 8, "param": "maxDocs=1,lite=1"}, thorough={"wall": "1500s", "shards": 16, "param": "maxDocs=2"}),
              H("H09_layout_merged", quick={"wall": "140s", "shards": 8, "param": "lite=1"}, thorough={"wall": "1500s", "shards": 16})])
 VEC = {"vectors": True}
-prop("C14", [H("H14_search", common=dict(VEC), quick={"wall": "140s", "shards": 16, "param": "maxDocs=2,nCat=2,nQueries=1,nSims=2,maxK=3"}, thorough={"wall": "1500s", "shards": 16, "param": "maxDocs=2"})])
+prop("C14", [H("H14_search", common=dict(VEC), quick={"wall": "140s", "shards": 16, "param": "maxDocs=2,nCat=2,nQueries=1,nSims=1,maxK=3"}, thorough={"wall": "1500s", "shards": 16, "param": "maxDocs=2"})])
 prop("C15", [H("H15_vecmerge", common=dict(VEC), quick={"wall": "140s", "shards": 16, "param": "nCat=2,reopen=0,maxDocs=1"}, thorough={"wall": "1500s", "shards": 16})])
 prop("C16", [H("H16_history", common=dict(VEC), quick={"wall": "140s", "shards": 16, "param": "maxEvents=4"}, thorough={"wall": "1500s", "shards": 16, "param": "maxEvents=6"})])
 prop("C19", [H("H19_faults", common=dict(VEC, param="large=1"), quick={"wall": "140s", "shards": 8})])
